@@ -7,6 +7,7 @@ def kv(l):
             k,_,v=x.partition('='); 
             if k not in d: d[k]=v
     return d
+if __name__ != "__main__": raise SystemExit
 rng = Rng(int(sys.argv[1]) if len(sys.argv)>1 else 7)
 blocks=[]
 for i in range(120):
